@@ -357,6 +357,14 @@ def pp_x(e, arg_names=None):
                 m = re.search(r"Result<([^,<>]+),", str(x[4]))
                 if m:           # str::parse::<T>: the target type is part of what is computed
                     return ("call", "parse_" + m.group(1).split("::")[-1], tuple(prep(a) for a in x[2]), None, None)
+            if x[0] == "call" and (x[1] or "").endswith("::from_str_radix"):
+                m = re.search(r"<impl (\w+)>::from_str_radix$", x[1] or "")
+                if m:           # the integer type parsed is part of what is computed
+                    return ("call", m.group(1) + "_from_str_radix", tuple(prep(a) for a in x[2]), None, None)
+            if x[0] == "call" and len(x) >= 5 and x[4] and shape.short_callee(x[1]) in ("try_from", "try_into") and len(x[2]) == 1:
+                m = re.match(r"^std::result::Result<([iu](?:8|16|32|64|128|size)),", str(x[4]))
+                if m:           # integer conversions: the target type decides which values fail
+                    return ("call", "try_into_" + m.group(1), tuple(prep(a) for a in x[2]), None, None)
             if x[0] == "cindex" and len(x) == 4:
                 return ("const", "%s[%s%s]" % (pp_x(x[1], arg_names), "-" if x[3] else "", x[2]), "cindex")
             if x[0] == "fnitem" and len(x) == 2:
@@ -438,24 +446,34 @@ def inline_closures(F, path, s, x=True):
     return re.sub(r"\{closure#(\d+)\}", sub, s)
 
 
-def expect_deep(ck, F, rule, key, path, accepted, what, file="src/asm.rs", abbr=()):
+def anon_locals(s):
+    """`local17` -> `local`: the numbering of MIR locals changes with unrelated edits of the same function"""
+    return re.sub(r"local\d+", "local", s)
+
+
+def expect_deep(ck, F, rule, key, path, accepted, what, file="src/asm.rs", abbr=(), norm=None):
     b = F.bodies.get(path)
     if not ck.anchor(rule, path, b):
         return False
     got = deep(F, path)
     for a, r in abbr:
         got = got.replace(a, r)
+    if norm is not None:
+        got = norm(got)
+        accepted = [norm(a) for a in accepted]
     ok = got in accepted
     ck.ob(rule, key, ok, "%s; normal form: %s%s" % (what, got, "" if ok else "  (accepted: %s)" % " | ".join(accepted)), "%s:%s" % (file, b.line))
     return ok
 
 
 # ---------------------------------------------------------------------------------------------
-def path_conditions(body, target, want, limit=4000):
+def path_conditions(body, target, want, limit=4000, track_consts=False):
     """Decision combinations under which `target` is reached: all acyclic paths from the entry are walked;
     at every switch whose (position-aware) discriminant rendering satisfies want(str) the taken edge label is
     recorded.  Returns a set of frozensets {(discriminant, label)}; None if the path limit is exceeded.
-    Blocks shared by several match arms (or-patterns) are handled, which dominating-edge analysis cannot."""
+    Blocks shared by several match arms (or-patterns) are handled, which dominating-edge analysis cannot.
+    With track_consts, locals assigned a constant on the path (the bool of a `matches!`) decide later
+    switches on that local, so infeasible combinations are not reported."""
     xb = XB(body)
     dcache = {}
 
@@ -469,7 +487,6 @@ def path_conditions(body, target, want, limit=4000):
                     s = None
             dcache[bi] = s
         return dcache[bi]
-    # restrict to blocks that can reach the target
     can = set()
     preds = body.preds()
     st = [target]
@@ -479,37 +496,56 @@ def path_conditions(body, target, want, limit=4000):
             continue
         can.add(x)
         st.extend(preds[x])
-    out = set()
     count = [0]
     memo = {}
 
-    def walk(bi, onpath):
-        """set of frozensets of decisions from bi to target"""
-        if bi == target:
-            return {frozenset()}
-        key = bi
-        if key in memo:
-            return memo[key]
-        res = set()
+    def consts_of(bi):
+        out = {}
+        for s in body.blocks[bi]["stmts"]:
+            if s["k"] == "assign" and not s["p"]["proj"]:
+                rv = s["rv"]
+                if rv["k"] == "use" and rv["op"].get("k") == "const" and "val" in rv["op"]:
+                    out[s["p"]["l"]] = rv["op"]["val"]
+                else:
+                    out[s["p"]["l"]] = None
+        return out
+
+    def edges_of(bi, env):
         t = body.blocks[bi]["term"]
-        d = discr(bi)
         if t["k"] == "switch":
             edges = [(str(v), tb) for v, tb in t["values"]] + [("else", t["otherwise"])]
             if len(edges) == 2 and edges[1][0] == "else" and t.get("discr_ty") == "bool":
                 edges = [edges[0], ("1" if edges[0][0] == "0" else "0", edges[1][1])]
-        else:
-            edges = [(None, s) for s in body.succs(bi)]
-        for lab, nb in edges:
+            d = t["discr"]
+            if env is not None and d.get("k") in ("copy", "move") and not d["p"]["proj"] and env.get(d["p"]["l"]) is not None:
+                v = str(env[d["p"]["l"]])
+                taken = [e for e in edges if e[0] == v] or [e for e in edges if e[0] == "else"]
+                return taken[:1]
+            return edges
+        return [(None, s2) for s2 in body.succs(bi)]
+
+    def walk(bi, onpath, env):
+        if bi == target:
+            return {frozenset()}
+        if env is None and bi in memo:
+            return memo[bi]
+        if env is not None:
+            env = dict(env)
+            env.update(consts_of(bi))
+        res = set()
+        d = discr(bi)
+        for lab, nb in edges_of(bi, env):
             if nb not in can or nb in onpath:
                 continue
             count[0] += 1
             if count[0] > limit:
                 raise OverflowError
-            for tail in walk(nb, onpath | {nb}):
+            for tail in walk(nb, onpath | {nb}, env):
                 res.add(tail | {(d, lab)} if d is not None and lab is not None else tail)
-        memo[key] = res
+        if env is None:
+            memo[bi] = res
         return res
     try:
-        return walk(0, frozenset([0]))
+        return walk(0, frozenset([0]), {} if track_consts else None)
     except OverflowError:
         return None
